@@ -30,6 +30,10 @@ def jobs(ctx: Ctx, prop: str) -> List[Dict[str, Any]]:
             # the same kind of graph at a coarser simulation resolution (hexes of about 9 m), with a junction drawn as two
             # nodes 4 m apart: links shorter than one cell.  C13 only: "fastest" has no meaning below the cell size
             items.append(dict(items[-1], id=f"coarse{base + k}", seed=37000 + base + k, h3res=12, split_junction=True))
+    for k in range(ctx.pick(6, 30)):       # the same kind of town at other latitudes (San Francisco, Frankfurt, Sydney, Quito, Tromso)
+        items.append({"id": f"abroad{base + k}", "kind": "routes", "net": "gen", "nodes": 8 + (k % 5), "seed": 39000 + base + k,
+                      "all_pairs": True, "n": 0, "snaps": 20, "weight": 2,
+                      "origin": [[37.77, -122.42], [50.11, 8.68], [-33.87, 151.21], [-0.18, -78.47], [69.65, 18.96]][k % 5]})
     for k in range(ctx.pick(6, 40)):       # medium graphs: sampled pairs by class, certificate
         items.append({"id": f"medium{base + k}", "kind": "routes", "net": "gen", "nodes": 20 + 8 * (k % 6), "seed": 32000 + base + k,
                       "n": ctx.pick(120, 400), "snaps": 40, "weight": 3})
